@@ -61,6 +61,26 @@ def pair_on_all_exits(ctx, fi, acquire_call, release_name):
     return True, ""
 
 
+def leniency_pair_rule(ctx, r):
+    """PAIR rule (shared with C03 and C05)."""
+    p = ctx.p
+    n_pairs = 0
+    for fi in p.all_functions():
+        if fi.module.name.startswith(("clikit.api.config", "clikit.config")):
+            continue
+        for c in q.method_calls(fi, "enable_lenient_args_parsing"):
+            n_pairs += 1
+            ok, why = pair_on_all_exits(ctx, fi, c, "disable_lenient_args_parsing")
+            if ok:
+                r.ok("%s: %s paired on all exits" % (fi.short, norm(c)))
+            else:
+                r.fail(fi, c, norm(c), "leniency switched on for a command config but %s: later runs of that command "
+                       "parse leniently" % why)
+    if n_pairs == 0:
+        r.vacuous_ok = True
+        r.note("no runtime code switches leniency any more")
+
+
 def run(ctx):
     p, cg, eff = ctx.p, ctx.cg, ctx.effects
 
@@ -107,21 +127,7 @@ def run(ctx):
     # ---------------------------------------------------------------- R2
     r = ctx.rule("C17-R2", "PAIR", "a temporary switch of a command's leniency is switched back on every exit, "
                  "exceptional ones included", reference=1)
-    n_pairs = 0
-    for fi in p.all_functions():
-        if fi.module.name.startswith(("clikit.api.config", "clikit.config")):
-            continue
-        for c in q.method_calls(fi, "enable_lenient_args_parsing"):
-            n_pairs += 1
-            ok, why = pair_on_all_exits(ctx, fi, c, "disable_lenient_args_parsing")
-            if ok:
-                r.ok("%s: %s paired on all exits" % (fi.short, norm(c)))
-            else:
-                r.fail(fi, c, norm(c), "leniency switched on for a command config but %s: later runs of that command "
-                       "parse leniently" % why)
-    if n_pairs == 0:
-        r.vacuous_ok = True
-        r.note("no runtime code switches leniency any more")
+    leniency_pair_rule(ctx, r)
 
     # ---------------------------------------------------------------- R3
     r = ctx.rule("C17-R3", "OWNER", "the caller's raw tokens are not edited by a resolver or handler (or the edit is "
@@ -214,6 +220,35 @@ def run(ctx):
     for c in p.subclasses(parser_base, strict=True):
         if "parse" in c.methods:
             scratch_rule(ctx, r, c.methods["parse"])
+
+    # ---------------------------------------------------------------- R11
+    ctx.borrow("c05", "C05-R2", "C17-R11", "running the same argv list twice gives the same run twice: nothing that receives an argv list, raw args or a format mutates it "
+               "(or the inverse mutation is on every exit)")
+
+    # ---------------------------------------------------------------- R12
+    r = ctx.rule("C17-R12", "OWNER", "what one command line asks for stays in that run: building the I/O for a run (the configured I/O factory) writes nothing into the "
+                 "long-lived application configuration (a `-vvv` must not leave the application in debug mode for later runs)", reference=1)
+    n12 = 0
+    for ci in sorted(p.classes.values(), key=lambda c: c.qualname):
+        m = ci.methods.get("create_io")
+        if m is None:
+            continue
+        n12 += 1
+        bad = None
+        for ev in eff.events_in(m):
+            rt = root(ev.token)
+            if is_fresh(ev.token) or rt[0] != "p" or rt[1] in ("input_stream", "output_stream", "error_stream"):
+                continue
+            bad = ev
+            break
+        if bad is not None:
+            o = bad.origin_event()
+            r.fail(m, bad.node, "create_io writes %s: %s" % (show(bad.token), norm(o.node)), "%s changes %s while building the I/O of one run (%s): the change outlives the run and every later run on "
+                   "the same application behaves as if it had been given that switch" % (m.short, show(bad.token), bad.chain()), chain=bad.chain())
+        else:
+            r.ok("%s: writes only the I/O objects it creates" % m.short)
+    if n12 == 0:
+        r.vacuous_ok = True
     return ctx.results
 
 
